@@ -240,3 +240,7 @@ def run(res, facts, tier):
     c10_builtin.run_c01_nomatch_rule(res, facts, tier)
     from . import c10_attrorder
     c10_attrorder.run_c01_rule(res, facts, tier)
+    from . import c04_attrset
+    c04_attrset.run_c01_rule(res, facts, tier)
+    from . import c01_keys
+    c01_keys.run_rule(res, facts, tier)
